@@ -209,8 +209,37 @@ def check_string(ctx, ci, bs, tag, VerifyingKey, MalformedPointError):
     if exp is None and isinstance(got, tuple):
         xy = K.coords_of(ci, bs)
         if xy == got and ci.order2_after_n(*xy):
+            # structural half of the K2 predicate; the label is confirmed by confirm_k2 (the composed model must give
+            # the same answer as the implementation on this very input)
             rec["known"] = "K2"
+            rec["_k2_line"] = "vk_from_string %s %s 1 m m" % (K.curve_tok(ci.cv), hx(bs))
+            rec["_k2_impl"] = "ok %d %d" % got
     return rec
+
+
+def confirm_k2(ctx, recs):
+    """a failure keeps its `known: K2` label only if, besides the structural predicate (cofactor != 1 and n*P has y = 0
+    by independent arithmetic), the composed model (`m` mode of Model/KeysWire.lean: Keys + Curve + NumberTheory models,
+    which reproduce K2) gives the same accept/reject answer as the implementation on that input.  Otherwise the input is
+    a NEW violation (a different defect that merely involves a small-subgroup point)."""
+    import subprocess
+    cand = [r for r in recs if r.get("known") == "K2" and "_k2_line" in r]
+    if not cand:
+        return
+    model = None
+    if common.os.path.exists(common.DRIVER):
+        p = subprocess.run([common.DRIVER], input="\n".join(r["_k2_line"] for r in cand) + "\n", capture_output=True, text=True, timeout=600)
+        if p.returncode == 0:
+            model = [l.strip() for l in p.stdout.split("\n")]
+    for i, r in enumerate(cand):
+        ans = model[i] if model and i < len(model) else None
+        r["model_answer"] = ans
+        if ans != r["_k2_impl"]:
+            del r["known"]
+            r["note"] = ("structural K2 predicate holds but the composed model answers %r where the implementation "
+                         "answered %r: not the known finding" % (ans, r["_k2_impl"]))
+        r.pop("_k2_line", None)
+        r.pop("_k2_impl", None)
 
 
 def search(ctx):
@@ -219,6 +248,7 @@ def search(ctx):
     cis = named(ctx)
     n_eval = 0
     k2 = 0
+    found = []      # string-level failures; K2 labels are confirmed against the composed model before reporting
     # 1. named curves, structured stream
     for ci in cis:
         for (bs, tag) in cand_stream(ctx, ci):
@@ -226,9 +256,7 @@ def search(ctx):
             ctx.hist("search.class", tag.split("-")[0] if tag.startswith(("prefix", "length")) else tag)
             rec = check_string(ctx, ci, bs, tag, VerifyingKey, MalformedPointError)
             if rec:
-                k2 += rec.get("known") == "K2"
-                if rec.get("known") != "K2" or k2 <= 2:
-                    ctx.violation(rec)
+                found.append(rec)
         # point objects with validation on
         for (x, y) in [(ci.G[0], ci.G[1]), (ci.G[0], ci.p - ci.G[1]), (ci.G[0] + ci.p, ci.G[1]), (ci.G[0], -ci.G[1]), (0, 0), (ci.G[0], ci.G[1] + 1)]:
             n_eval += 1
@@ -255,10 +283,15 @@ def search(ctx):
             n_eval += 1
             rec = check_string(ctx, ci, bs, "toy-h%d" % ci.h, VerifyingKey, MalformedPointError)
             if rec:
-                k2 += rec.get("known") == "K2"
-                if rec.get("known") != "K2" or k2 <= 2:
-                    ctx.violation(rec)
+                found.append(rec)
         ctx.hist("search.class", "toy-h%d" % ci.h, len(cands))
+    confirm_k2(ctx, found)
+    for rec in found:
+        if rec.get("known") == "K2":
+            k2 += 1
+            if k2 > 2:
+                continue
+        ctx.violation(rec)
     # 3. the DER / PEM wrapper against the strict parser
     for ci in cis:
         for (buf, tag) in der_stream(ctx, ci, cis):
@@ -297,7 +330,8 @@ def replay(rec):
                     break
         class Dummy:  # noqa
             rng = None
-        return check_string(None, ci, bytes.fromhex(i["bytes"]), i.get("class", ""), VerifyingKey, MalformedPointError) is not None
+        r = check_string(None, ci, bytes.fromhex(i["bytes"]), i.get("class", ""), VerifyingKey, MalformedPointError)
+        return r is not None
     if i["entry"] in ("VerifyingKey.from_der", "VerifyingKey.from_pem"):
         buf = bytes.fromhex(i["bytes"])
         exp, _ = expected_der(cis, buf)
